@@ -20,15 +20,24 @@ TEXT["conc"] = ("XsConcurrent (code-layer TLA+ model of Store::append / Store::r
                 "buffers; TLC -simulate schedules of it and seeded random walks over the parked actors (implementation-side "
                 "exploration) drive the real threads through the xs_verif gate scheduler; every event log is validated by TLC "
                 "against the observer spec TraceFollow.")
+TEXT["dur"] = ("XsDurable (code-layer TLA+ model of what survives a crash: per operation the steps CAS write, batch into fjall's "
+               "user-space journal buffer, spill / flush to the OS, fsync, ack; CrashKill, CrashPower with torn tails, Recover) is "
+               "exhausted by TLC for small constants with XsDurProps!ImageVerdict as invariant; operation lists (TLC -simulate of "
+               "that model, seeded random, bulk data) are run on the real Store in a child process; for every store-mutating system "
+               "call after the first ACK a real SIGKILL image (ptrace supervisor) and reconstructed power-loss images (strace log, "
+               "tools/durimg.py) are opened by the real Store::new in a fresh process; TLC validates every observation against the "
+               "observer spec TraceDurable, which judges with the same XsDurProps operators.")
 NOTE = {
+ "dur": "Trusted: TLC, the ptrace supervisor, the strace-based reconstruction (self-checked against the real directory on every run), the ordered-metadata file-system model of tools/durimg.py, the abstraction of observations. Bounded: MC_dur_*.cfg constants; crash points at system-call granularity plus torn journal writes; memtable flush / journal rotation sampled by bulk runs, not modelled. CAS content durability against power loss is not claimed.",
  "conc": "Trusted: TLC, the gate hooks (events are logged under one mutex after the state change), rank abstraction of ids. Bounded: MC_conc_*.cfg constants; schedules sampled.",
  "store": "Trusted: TLC, the harness' abstraction of concrete values back to model tokens, the xs_verif hooks (virtual clock, GC gate, raw dump). Bounded: model constants in spec/MC_store_*.cfg; behaviours sampled, not enumerated.",
 }
 TECH = {
+ "dur": "TLC model checking of XsDurable + real kill images and reconstructed power-loss images recovered by the real store + TLC trace validation (TraceDurable)",
  "conc": "TLC model checking of XsConcurrent + gate-scheduled replay/exploration of real threads + TLC trace validation (TraceFollow)",
  "store": "TLC model checking of XsStore + TLC trace validation (TraceStore) of replayed behaviours on the real store",
 }
-DESIGN = {"conc": "DESIGN.md 3, 4.1, 5 (C02 C03 C11)", "store": "DESIGN.md 3, 4, 5 (C01 C05 C07 C08 C09 C20)"}
+DESIGN = {"dur": "DESIGN.md 3 (XsDurable), 4.4, 5 (C04 C10 C07); docs/dur-notes.md", "conc": "DESIGN.md 3, 4.1, 5 (C02 C03 C11)", "store": "DESIGN.md 3, 4, 5 (C01 C05 C07 C08 C09 C20)"}
 
 hooks_commits = subprocess.run("git -C /repo log --format=%h --grep='^verif hooks' ", shell=True, capture_output=True, text=True).stdout.split()
 
